@@ -105,6 +105,9 @@ func (s *Spec) emitTypes(pkg string) string {
 	if pkg == "" && s.ExtraDecl != "" {
 		b.WriteString("\n" + s.ExtraDecl + "\n")
 	}
+	if pkg != "" && s.ExtDecl[pkg] != "" {
+		b.WriteString("\n" + s.ExtDecl[pkg] + "\n")
+	}
 	body := b.String()
 	name := s.mainPkgName()
 	if pkg != "" {
